@@ -223,6 +223,19 @@ Theorem c06_dropping_a_reachable_function_differs :
 Proof. exact dropping_a_reachable_function_differs. Qed.
 
 
+
+(* ================================================================== GC deletes unused passive data segments: invisible (Model/SemBulk.v) *)
+From WV Require Import Model.SemCore Model.SemMod Model.Inst Model.SemBulk Proofs.SemBulk.
+From WV Require Proofs.SemMod.
+Section BulkGc.
+Local Open Scope N_scope.
+Theorem c06_dropping_unused_data_segments_preserves_behaviour :
+  forall (E : benv) (q : N),
+    (forall (id ti : N) (ls : list Ops.valty) (body : list ParseSpec.rt), me_funcs (be_menv E) id = Some (ti, ls, body) -> ~ List.In q (List.map (be_dslot E) (datas_used (Proofs.SemMod.live body)))) ->
+    forall (k fuel : nat) (f : N) (args : list val) (s0 : st) (dr : list N), run_mod_b (without_data E q) k fuel f args s0 dr = run_mod_b E k fuel f args s0 dr.
+Proof. exact dropping_unused_data_is_invisible. Qed.
+End BulkGc.
+
 Print Assumptions c06_reachable_kept.
 Print Assumptions c06_closed.
 Print Assumptions c06_roots_kept.
@@ -245,3 +258,4 @@ Print Assumptions c06_interface_holds_for_reference_moving_operators.
 Print Assumptions c06_dropping_a_reachable_function_differs.
 Print Assumptions c06_every_index_the_emitter_writes_is_a_visited_reference.
 Print Assumptions c06_every_visited_reference_comes_from_an_index.
+Print Assumptions c06_dropping_unused_data_segments_preserves_behaviour.
